@@ -4,13 +4,16 @@ import (
 	"crypto/ed25519"
 	"crypto/rand"
 	"fmt"
+	"io"
 	"os"
+	"regexp"
 	"sort"
 	"strings"
 	"sync"
 	"time"
 
 	"github.com/fxamacker/cbor/v2"
+	"github.com/ipfs/go-cid"
 	"github.com/libp2p/go-libp2p/core/peer"
 	"github.com/sourcenetwork/corekv"
 	"github.com/sourcenetwork/corelog"
@@ -64,12 +67,92 @@ func init() {
 		// case, and corelog has no level above error. It resolves os.Stderr at every record, so
 		// pointing the variable at /dev/null silences it (the runtime and the test framework do
 		// not use the variable). C15_LOG=1 keeps the log (info level) for diagnosis.
-		if f, err := os.OpenFile(os.DevNull, os.O_WRONLY, 0); err == nil {
+		// The records go to a scratch file; a failure message quotes the error lines of its case.
+		dir := os.Getenv("VERIF_SCRATCH")
+		if dir == "" {
+			dir = os.TempDir()
+		}
+		if f, err := os.CreateTemp(dir, "c15-log-*.txt"); err == nil {
+			_ = os.Remove(f.Name()) // stays readable through the handle
+			os.Stderr = f
+			logFile = f
+		} else if f, err := os.OpenFile(os.DevNull, os.O_WRONLY, 0); err == nil {
 			os.Stderr = f
 		}
 	} else {
 		corelog.SetConfig(corelog.Config{Level: "info", Output: "stderr", Format: "text"})
 	}
+}
+
+var logFile *os.File
+
+// logMark returns the current end of the captured log.
+func logMark() int64 {
+	if logFile == nil {
+		return 0
+	}
+	st, err := logFile.Stat()
+	if err != nil {
+		return 0
+	}
+	return st.Size()
+}
+
+var ansiRe = regexp.MustCompile("\\x1b\\[[0-9;]*m")
+
+// logSince summarises the error records written since mark: push failures are only counted,
+// everything else is quoted (first 25 distinct lines, shortened).
+func logSince(mark int64) string {
+	if logFile == nil {
+		return ""
+	}
+	end := logMark()
+	if end <= mark {
+		return "error log of this case: empty\n"
+	}
+	n := end - mark
+	if n > 4<<20 {
+		mark, n = end-(4<<20), 4<<20
+	}
+	buf := make([]byte, n)
+	if _, err := logFile.ReadAt(buf, mark); err != nil && err != io.EOF {
+		return ""
+	}
+	pushFail, retryFail := 0, 0
+	seen := map[string]int{}
+	order := []string{}
+	for _, line := range strings.Split(string(buf), "\n") {
+		line = ansiRe.ReplaceAllString(strings.TrimSpace(line), "")
+		switch {
+		case line == "":
+		case strings.Contains(line, "Failed pushing log"):
+			pushFail++
+		case strings.Contains(line, "Failed to retry doc"):
+			retryFail++
+		default:
+			if i := strings.Index(line, " ERR "); i >= 0 {
+				line = line[i+1:]
+			}
+			if len(line) > 420 {
+				line = line[:420] + "…"
+			}
+			if seen[line] == 0 {
+				order = append(order, line)
+			}
+			seen[line]++
+		}
+	}
+	var sb strings.Builder
+	fmt.Fprintf(&sb, "error log of this case: %d x 'Failed pushing log', %d x 'Failed to retry doc'", pushFail, retryFail)
+	for i, l := range order {
+		if i == 25 {
+			fmt.Fprintf(&sb, "\n  … %d more distinct lines", len(order)-25)
+			break
+		}
+		fmt.Fprintf(&sb, "\n  [%dx] %s", seen[l], l)
+	}
+	sb.WriteString("\n")
+	return sb.String()
 }
 
 var retryIntervals = []time.Duration{50 * time.Millisecond, 100 * time.Millisecond, 200 * time.Millisecond}
@@ -80,6 +163,7 @@ type trace struct {
 	mu    sync.Mutex
 	t0    time.Time
 	lines []string
+	mark  int64 // start of this case in the captured error log
 }
 
 func (tr *trace) f(format string, args ...any) {
@@ -95,7 +179,7 @@ func (tr *trace) String() string {
 	if len(l) > 120 {
 		l = append(append([]string{}, l[:40]...), append([]string{"..."}, l[len(l)-80:]...)...)
 	}
-	return strings.Join(l, "\n")
+	return strings.Join(l, "\n") + "\n" + logSince(tr.mark)
 }
 
 // ---------------------------------------------------------------- run info (dynamic labels)
@@ -1061,9 +1145,41 @@ func (w *world) pubsubFinal() *hx.Failure {
 	}
 	if len(lag) > 0 {
 		s := w.snapshot()
-		return hx.Failf("C15/pubsub/update-after-reconnect-never-delivered",
-			"B is subscribed to the collection and connected to A, %d updates of slots %v were written on A after the reconnection over %v, none reached B\nstate:\n%strace:\n%s",
-			rounds, lag, time.Duration(rounds)*perRound, s.describe(w), w.tr)
+		// where did it stop? syncDAG stores the pushed head block before it fetches the links
+		sig := "C15/pubsub/update-after-reconnect-never-delivered"
+		var why strings.Builder
+		subs, _ := w.b.N.Peer.GetAllP2PCollections(w.b.Ctx)
+		fmt.Fprintf(&why, "B's P2P collections: %v (collection id %s)\n", subs, w.root)
+		arrived, requested := 0, 0
+		for _, slot := range lag {
+			d := w.docs[slot]
+			for _, h := range s.a[slot] {
+				c, err := cid.Decode(h)
+				if err != nil {
+					continue
+				}
+				has, _ := datastore.BlockstoreFrom(w.b.DB.Rootstore()).Has(w.b.Ctx, c)
+				seen := w.btap.forCid(d.id, h)
+				if has {
+					arrived++
+				}
+				if len(seen) > 0 {
+					requested++
+				}
+				fmt.Fprintf(&why, "slot %d head %s: block on B=%v, merge requests on B=%+v\n", slot, h, has, seen)
+			}
+		}
+		switch {
+		case arrived == 0:
+			sig += "/message-never-arrived"
+		case requested == 0:
+			sig += "/arrived-but-dag-sync-failed"
+		default:
+			sig += "/merge-requested-but-not-done"
+		}
+		return hx.Failf(sig,
+			"B is subscribed to the collection and connected to A, %d updates of slots %v were written on A after the reconnection over %v, none reached B\n%sstate:\n%strace:\n%s",
+			rounds, lag, time.Duration(rounds)*perRound, why.String(), s.describe(w), w.tr)
 	}
 	return w.compareContent(live, "pubsub final")
 }
@@ -1203,7 +1319,7 @@ func run(c Case, info *runInfo) *hx.Failure {
 	if c.NDocs < 1 {
 		c.NDocs = 1
 	}
-	w := &world{c: c, tr: &trace{t0: time.Now()}, info: info, docs: map[int]*mdoc{}, bView: "up"}
+	w := &world{c: c, tr: &trace{t0: time.Now(), mark: logMark()}, info: info, docs: map[int]*mdoc{}, bView: "up"}
 	info.trace = w.tr
 	w.retrySeen = map[string]bool{}
 	if c.APubSubOff && c.Config != "rep" {
